@@ -14,7 +14,7 @@ RULE = {"C17": "per sensor model: all 4096 ADC codes (v = code*5/4096) through A
                "inside/outside the range. Non-trivial = voltage > 0 whose power-law value lies strictly inside the range "
                "(the law, not the clamp, decides) or a sim distance inside the range; distinct = distinct (model, input)."}
 RULE["C17"] += '  Readings at or below 0 V must be the far end of the range (monotonicity); sub-LSB voltage steps; replays feed the recent input history first.'
-REQUIRED = {"C17": {"first-reading-of-a-new-driver-object": 60, "driver-built-through-its-older-name": 5, "near-pair": 300, "adc-code": 3 * 4096, "special-double": 60, "random-double": 3000, "in-range-law-checked": 3000,
+REQUIRED = {"C17": {"five-volt-rail-off-nominal": 100, "first-reading-of-a-new-driver-object": 60, "driver-built-through-its-older-name": 5, "near-pair": 300, "adc-code": 3 * 4096, "special-double": 60, "random-double": 3000, "in-range-law-checked": 3000,
                     "clamped-low": 100, "clamped-high": 100, "monotone-pair": 10000, "sim-roundtrip": 600,
                     "sim-outside-range": 100, "sim-fresh-helper": 50, "sim-raw-write-between": 50}}
 ASSUMPTIONS = {"C17": ["AnalogInputSim.setVoltage passes any double unchanged to AnalogInput.getVoltage (probed: yes, incl. inf and negatives)"]}
@@ -237,7 +237,16 @@ def run_shard(spec):
             pairs = []
             for _ in range(spec["n"] // 3):
                 v = rand_double(rng)
+                sag = rng.random() < 0.1
+                if sag:
+                    # the roboRIO's 5 V rail is not at its nominal value (brown-out, heavy load): the sensor's output voltage is
+                    # what it is, the reading must not depend on the rail
+                    from wpilib.simulation import RoboRioSim
+                    RoboRioSim.setUserVoltage5V(rng.choice([4.5, 4.75, 4.9, 5.1, 0.0]))
+                    acc.ev("five-volt-rail-off-nominal")
                 pairs.append((v, check_voltage(acc, name, v, "random-double")))
+                if sag:
+                    RoboRioSim.setUserVoltage5V(5.0)
                 if rng.random() < 0.3 and 0 < v < 6:
                     # consecutive readings a hair apart on the same driver object (sub-LSB steps never occur in a code sweep)
                     v2 = v + rng.choice([1e-6, 1e-5, 1e-4, 5e-4, 9e-4, -1e-4, -5e-4])
